@@ -1,15 +1,19 @@
 // Instrumented-cache driver (compiled by shimkit against a scratch copy of go-internal in which
 // cache/cache.go, lockedfile/* use vshim).  One scenario per stdin line:
 //
-//	run <dir> <procs: '|'-separated; each a ';'-separated list of ops> <seed|c:choices> [fault:<osIndex>:<kind>[:k]] [now:<unixnano>]
+//	run <dir> <procs: '|'-separated; each a ';'-separated list of ops> <seed|c:choices|g:segments> [fault:<osIndex>:<kind>[:k]] [now:<unixnano>]
 //
 // ops (ids and contents are small integers indexing fixed tables):
 //
 //	p<id>,<content>   Put(id, content)        b<id>   GetBytes(id)     f<id>   GetFile(id)     g<id>  Get(id)
-//	P<id>,<content>,<srcfault>  Put with a faulty source: srcfault = e<off> (error at offset), s<off> (early EOF), c<off> (byte changes on 2nd pass)
+//	P<id>,<content>,<srcfault>  Put with a faulty source: srcfault = e<off> (error at offset on the 2nd pass), s<off> (early EOF on
+//	                  the 2nd pass), c<off> (byte at off differs on the 2nd pass), E (the 1st pass fails), k (the 2nd Seek fails)
 //	T                 Trim()
 //
-// Output per scenario: `TRACE ev|… END done|deadlock|aborted` (driver events: call/ret with results).
+// A process may run several goroutines: `ops&ops` inside one process.
+//
+// Output per scenario: `TRACE ev|… END done|deadlock|aborted CHOICES e.e.e:k,…` (driver events: call/ret with results;
+// CHOICES lists, per scheduling step, the enabled task ids and the index chosen).
 package main
 
 import (
@@ -48,6 +52,33 @@ func chooser(spec string) func(step int, enabled []int, s *vshim.Sched) int {
 			return 0
 		}
 	}
+	if strings.HasPrefix(spec, "g:") {
+		// segments `<task>*<steps>,…`: run the task for that many scheduling steps (while it is enabled),
+		// afterwards the lowest enabled task: schedules with a bounded number of preemptions
+		type seg struct{ task, n int }
+		var segs []seg
+		for _, f := range strings.Split(spec[2:], ",") {
+			var t, n int
+			if _, err := fmt.Sscanf(f, "%d*%d", &t, &n); err == nil && n > 0 {
+				segs = append(segs, seg{t, n})
+			}
+		}
+		return func(step int, enabled []int, s *vshim.Sched) int {
+			for len(segs) > 0 {
+				for i, e := range enabled {
+					if e == segs[0].task {
+						segs[0].n--
+						if segs[0].n == 0 {
+							segs = segs[1:]
+						}
+						return i
+					}
+				}
+				segs = segs[1:] // the task has finished: next segment
+			}
+			return 0
+		}
+	}
 	seed, _ := strconv.ParseInt(spec, 10, 64)
 	r := rand.New(rand.NewSource(seed))
 	return func(step int, enabled []int, s *vshim.Sched) int { return r.Intn(len(enabled)) }
@@ -66,6 +97,8 @@ func content(i int) []byte {
 		return []byte("hello")
 	case 4:
 		return bytes.Repeat([]byte("0123456789"), 4)
+	case 6:
+		return []byte("world")
 	default:
 		return bytes.Repeat([]byte{byte('A' + i)}, 70000)
 	}
@@ -78,7 +111,8 @@ func actionID(i int) cache.ActionID {
 	return id
 }
 
-// faultySrc is an io.ReadSeeker whose behaviour depends on the pass.
+// faultySrc is an io.ReadSeeker whose behaviour depends on the pass (pass 1 = Put's hashing pass,
+// pass 2 = copyFile's copying pass; every Seek(0, 0) starts the next pass).
 type faultySrc struct {
 	data []byte
 	off  int
@@ -91,29 +125,32 @@ func (s *faultySrc) Seek(off int64, whence int) (int64, error) {
 	if off == 0 && whence == io.SeekStart {
 		s.off = 0
 		s.pass++
+		if s.kind == 'k' && s.pass >= 2 {
+			return 0, errors.New("source seek error")
+		}
 		return 0, nil
 	}
 	return 0, errors.New("unsupported seek")
 }
 
 func (s *faultySrc) Read(p []byte) (int, error) {
-	if s.off >= len(s.data) {
-		return 0, io.EOF
+	if s.kind == 'E' {
+		return 0, errors.New("source read error")
 	}
 	end := len(s.data)
-	switch s.kind {
-	case 'e', 's':
-		if s.pass >= 2 || s.kind == 'e' || s.kind == 's' {
-			if s.off >= s.at && (s.pass >= 2) {
-				if s.kind == 'e' {
-					return 0, errors.New("source read error")
-				}
-				return 0, io.EOF
+	if (s.kind == 'e' || s.kind == 's') && s.pass >= 2 {
+		if s.off >= s.at {
+			if s.kind == 'e' {
+				return 0, errors.New("source read error")
 			}
-			if s.pass >= 2 && end > s.at {
-				end = s.at
-			}
+			return 0, io.EOF
 		}
+		if end > s.at {
+			end = s.at
+		}
+	}
+	if s.off >= end {
+		return 0, io.EOF
 	}
 	n := copy(p, s.data[s.off:end])
 	if s.kind == 'c' && s.pass >= 2 && s.at >= s.off && s.at < s.off+n {
@@ -123,7 +160,7 @@ func (s *faultySrc) Read(p []byte) (int, error) {
 	return n, nil
 }
 
-func short(h [32]byte) string { return hex.EncodeToString(h[:4]) }
+func short(h [32]byte) string { return hex.EncodeToString(h[:]) }
 
 func run(f []string) string {
 	dir := f[1]
@@ -152,73 +189,89 @@ func run(f []string) string {
 			s.Now, _ = strconv.ParseInt(x[4:], 10, 64)
 		}
 	}
-	for pi, p := range strings.Split(f[2], "|") {
-		ops := strings.Split(p, ";")
-		// cache.Open (stat + 256 MkdirAll) runs outside the controlled execution: not logged, not faultable.
-		c, err := cache.Open(dir)
-		if err != nil {
-			return "TRACE open-error END aborted"
+	var choiceLog []string
+	inner := s.Choose
+	s.Choose = func(step int, enabled []int, sc *vshim.Sched) int {
+		k := inner(step, enabled, sc)
+		parts := make([]string, len(enabled))
+		for i, e := range enabled {
+			parts[i] = strconv.Itoa(e)
 		}
-		s.SpawnProc(pi, func() {
-			for _, op := range ops {
-				if op == "" {
-					continue
-				}
-				args := strings.Split(op[1:], ",")
-				id := 0
-				if len(args) > 0 && args[0] != "" {
-					id, _ = strconv.Atoi(args[0])
-				}
-				switch op[0] {
-				case 'p', 'P':
-					ci, _ := strconv.Atoi(args[1])
-					data := content(ci)
-					var src io.ReadSeeker = bytes.NewReader(data)
-					if op[0] == 'P' {
-						at, _ := strconv.Atoi(args[2][1:])
-						src = &faultySrc{data: data, pass: 1, kind: args[2][0], at: at}
-					}
-					vshim.Note("call", "put", args[0], args[1])
-					out, size, err := c.Put(actionID(id), src)
-					if err != nil {
-						vshim.Note("ret", "put", "err")
-					} else {
-						vshim.Note("ret", "put", "ok", short(out), fmt.Sprint(size))
-					}
-				case 'b':
-					vshim.Note("call", "getbytes", args[0])
-					data, e, err := c.GetBytes(actionID(id))
-					if err != nil {
-						vshim.Note("ret", "getbytes", "miss")
-					} else {
-						h := sha256.Sum256(data)
-						vshim.Note("ret", "getbytes", "ok", short(e.OutputID), fmt.Sprint(e.Size), short(h), fmt.Sprint(len(data)))
-					}
-				case 'f':
-					vshim.Note("call", "getfile", args[0])
-					file, e, err := c.GetFile(actionID(id))
-					if err != nil {
-						vshim.Note("ret", "getfile", "miss")
-					} else {
-						data, _ := os.ReadFile(file)
-						h := sha256.Sum256(data)
-						vshim.Note("ret", "getfile", "ok", short(e.OutputID), fmt.Sprint(e.Size), short(h), fmt.Sprint(len(data)))
-					}
-				case 'g':
-					vshim.Note("call", "get", args[0])
-					e, err := c.Get(actionID(id))
-					if err != nil {
-						vshim.Note("ret", "get", "miss")
-					} else {
-						vshim.Note("ret", "get", "ok", short(e.OutputID), fmt.Sprint(e.Size))
-					}
-				case 'T':
-					vshim.Note("call", "trim")
-					c.Trim()
-					vshim.Note("ret", "trim")
-				}
+		choiceLog = append(choiceLog, strings.Join(parts, ".")+":"+strconv.Itoa(k))
+		return k
+	}
+	for pi, pspec := range strings.Split(f[2], "|") {
+		for _, p := range strings.Split(pspec, "&") {
+			ops := strings.Split(p, ";")
+			// cache.Open (stat + 256 MkdirAll) runs outside the controlled execution: not logged, not faultable.
+			c, err := cache.Open(dir)
+			if err != nil {
+				return "TRACE open-error END aborted"
 			}
-		})
+			s.SpawnProc(pi, func() {
+				for _, op := range ops {
+					if op == "" {
+						continue
+					}
+					args := strings.Split(op[1:], ",")
+					id := 0
+					if len(args) > 0 && args[0] != "" {
+						id, _ = strconv.Atoi(args[0])
+					}
+					switch op[0] {
+					case 'p', 'P':
+						ci, _ := strconv.Atoi(args[1])
+						data := content(ci)
+						var src io.ReadSeeker = bytes.NewReader(data)
+						if op[0] == 'P' {
+							at := 0
+							if len(args[2]) > 1 {
+								at, _ = strconv.Atoi(args[2][1:])
+							}
+							src = &faultySrc{data: data, kind: args[2][0], at: at}
+						}
+						vshim.Note("call", "put", args[0], args[1])
+						out, size, err := c.Put(actionID(id), src)
+						if err != nil {
+							vshim.Note("ret", "put", "err")
+						} else {
+							vshim.Note("ret", "put", "ok", short(out), fmt.Sprint(size))
+						}
+					case 'b':
+						vshim.Note("call", "getbytes", args[0])
+						data, e, err := c.GetBytes(actionID(id))
+						if err != nil {
+							vshim.Note("ret", "getbytes", "miss")
+						} else {
+							h := sha256.Sum256(data)
+							vshim.Note("ret", "getbytes", "ok", short(e.OutputID), fmt.Sprint(e.Size), short(h), fmt.Sprint(len(data)))
+						}
+					case 'f':
+						vshim.Note("call", "getfile", args[0])
+						file, e, err := c.GetFile(actionID(id))
+						if err != nil {
+							vshim.Note("ret", "getfile", "miss")
+						} else {
+							data, _ := os.ReadFile(file)
+							h := sha256.Sum256(data)
+							vshim.Note("ret", "getfile", "ok", short(e.OutputID), fmt.Sprint(e.Size), short(h), fmt.Sprint(len(data)))
+						}
+					case 'g':
+						vshim.Note("call", "get", args[0])
+						e, err := c.Get(actionID(id))
+						if err != nil {
+							vshim.Note("ret", "get", "miss")
+						} else {
+							vshim.Note("ret", "get", "ok", short(e.OutputID), fmt.Sprint(e.Size))
+						}
+					case 'T':
+						vshim.Note("call", "trim")
+						c.Trim()
+						vshim.Note("ret", "trim")
+					}
+				}
+			})
+		}
 	}
 	s.Run()
 	var ev []string
@@ -231,7 +284,7 @@ func run(f []string) string {
 	} else if s.Aborted {
 		end = "aborted"
 	}
-	return "TRACE " + strings.Join(ev, "|") + " END " + end
+	return "TRACE " + strings.Join(ev, "|") + " END " + end + " CHOICES " + strings.Join(choiceLog, ",")
 }
 
 func main() {
